@@ -56,7 +56,7 @@ def build_jobs(tier):
     if tier == "quick":
         texts += F.f_rule_pairs(both, consts=[0, 1, F.MASK], contexts=("stack",))
         texts += F.f_mem((2,), deltas=[0, 1, 31, 32, 33])
-        texts += F.f_mem((3,), deltas=[0, 16, 32], ops=("MSTORE", "MLOAD", "MSTORE8"))
+        texts += F.f_mem((3,), deltas=[0, 16, 32], ops=("MSTORE", "MLOAD", "MSTORE8"))[::2]
         texts += F.f_mem_byte_in_word()
         texts += F.f_mem_shared_values(deltas=(0, 1, 32), tail=(None, "MLOAD"))[::2]
         texts += F.f_mem_repeated_store(deltas=(0, 1, 32))[::2]
